@@ -56,6 +56,18 @@ func (s *State) assume(c *Ctx, t Term) {
 	s.Reach = c.reachAnd(s.Reach, t)
 }
 
+// assumeFact adds a fact that is not a path condition (type invariants of
+// loaded, unboxed or fresh values). While specification code is evaluated,
+// path conditions become ite conditions of the result, so such facts are
+// collected on the side instead.
+func (c *Ctx) assumeFact(s *State, t Term) {
+	if c.specDepth > 0 {
+		c.addFact(t)
+		return
+	}
+	s.assume(c, t)
+}
+
 // heapGet returns the current term of a heap map.
 func (c *Ctx) heapGet(s *State, key string, sort Sort) Term {
 	c.eng.keySorts[key] = sort
